@@ -5,11 +5,15 @@
    t_run = the terminal those operations act on (after src/mockterm.c); linemask_to_char =
    the glyph table re-translated from src/linechars.inc on every run (Gen_Linechars.v);
    arms_of_boxchar = the arms of the Unicode box-drawing characters (RBGlyphs.v, hand-written
-   specification); grid_meets / flush_checkb = the cell-wise expectation of RBFlushSpec.v.
+   specification); grid_meets / flush_checkb = the cell-wise expectation of RBFlushSpec.v;
+   track = the cursor tracker of RBFlushCols.v (which cells a list of terminal operations
+   covers, given that printing advances by text_width, erasech(n, YES) moves to the end of the
+   erased range and erasech(n, MAYBE) leaves the cursor at an unknown position); pending = the
+   non-skip cells of the buffer in row-major order (RBFlushReach.v).
    This file contains nothing but the property theorems, each closed by [exact <lemma>]. *)
 From Coq Require Import ZArith List Bool.
-From Tickit Require Import RectDefs RBDefs RBSpec RBInv RBProofs Gen_Linechars RBGlyphs RBGlyphProofs
-                           RBFlushDefs RBFlushSpec RBFlushProofs.
+From Tickit Require Import RectDefs RBDefs RBSpec RBAbsLemmas RBInv RBProofs Gen_Linechars RBGlyphs RBGlyphProofs
+                           RBFlushDefs RBFlushSpec RBFlushProofs RBProps RBWidth RBFlushCols RBFlushReach.
 Import ListNotations.
 Local Open Scope Z_scope.
 
@@ -30,28 +34,69 @@ Theorem C04_flush_total_and_resets : forall s,
 Proof. exact flush_total_and_resets. Qed.
 Print Assumptions C04_flush_total_and_resets.
 
+(* Column bookkeeping with wide and zero-width characters: a text span of n columns showing a
+   valid string from column offs on is flushed as operations that advance the terminal by
+   exactly n columns -- whatever mix of width-0, width-1 and width-2 characters the string
+   has, and whether or not the span begins or ends in the middle of a double-width character
+   (the orphaned half is printed as a blank). *)
+Theorem C04_text_columns : forall p s offs n,
+  text_valid s = true -> 0 <= offs -> 1 <= n -> offs + n <= text_width s ->
+  log_cols (text_emit p s offs n) = n.
+Proof. exact text_emit_cols. Qed.
+Print Assumptions C04_text_columns.
+
+(* [pending s] is the list of the non-skip cells of the specification's grid, without
+   duplicates. *)
+Theorem C04_pending : forall s, Inv s ->
+  NoDup (pending s) /\
+  forall l c, In (l, c) (pending s) <->
+              in_grid (abs_rb s) l c /\ ac (gcell (ag (abs_rb s)) l c) <> ASkip.
+Proof. exact pending_spec. Qed.
+Print Assumptions C04_pending.
+
+(* "Exactly once, each in its own place": wherever the terminal's cursor is before the flush
+   (known or unknown), every print and erase the flush issues happens at a known cursor
+   position, and the cells these operations cover, in order, are precisely the pending cells
+   of the buffer -- each once, each at its own line and column, nothing else (skip cells and
+   everything outside the buffer are never written).  Hypothesis acells_ok: every Text cell
+   lies within its valid string, every Char cell has width one, every Line mask is in 1..255
+   (discharged for reachable buffers in the next theorem). *)
+Theorem C04_flush_columns : forall s ops s' cur,
+  Inv s -> acells_ok (abs_rb s) -> flush s = Ok (ops, s') ->
+  exists cur', track cur ops = Some (pending s, cur').
+Proof. exact flush_columns. Qed.
+Print Assumptions C04_flush_columns.
+
+(* ... for every buffer a drawing program reaches (line styles 1..3). *)
+Theorem C04_flush_columns_reachable : forall L C prog s v cur,
+  0 <= L -> 0 <= C -> Forall op_ok prog -> run (rb_new L C) prog = Ok (s, v) ->
+  exists ops cur', flush s = Ok (ops, reset s) /\ track cur ops = Some (pending s, cur').
+Proof. exact flush_columns_reachable. Qed.
+Print Assumptions C04_flush_columns_reachable.
+
+(* the content invariant is preserved by every step of the specification *)
+Theorem C04_content_invariant : forall A o, op_ok o -> ashape A -> acells_ok A -> acells_ok (fst (astep A o)).
+Proof. exact astep_aok. Qed.
+Print Assumptions C04_content_invariant.
+
 (* NOT PROVED (full statement; carried by the correspondence check as testing: the exact
    operation log and final grid of the C against this model, and the C's own observations
    against flush_checkb, over all programs of <= 3 ops on 2x6, all 255 masks, every text of a
    width-mix family cut at every column, and random programs):
 
    C04_flush_full : forall s t0 ops s',
-     Inv s -> (every CChar code point has width 1, every CLine mask is in 1..255, every CText
-               span lies within its string's width: invariants of reachable states) ->
+     Inv s -> acells_ok (abs_rb s) ->
      t_lines t0 >= rb_lines s -> t_cols t0 >= rb_cols s -> (cursor of t0 anywhere, pen anything) ->
      flush s = Ok (ops, s') ->
      exists t1, t_run t0 ops = Ok t1 /\
-       grid_meets (ag (abs_rb s)) (tg t0) (tg t1) = true /\      (* every cell at its own line and
-                                                                    column with its own pen; Skip
-                                                                    cells and cells outside the
-                                                                    buffer untouched *)
-       log_cols ops = pending_cells (ag (abs_rb s)).             (* exactly once *)
+       grid_meets (ag (abs_rb s)) (tg t0) (tg t1) = true.       (* every cell shows its own text
+                                                                    with its own pen *)
 
-   What is missing: (1) the lemma that text_emit prints exactly the span's columns for every
-   width mix (lead + width of the slice + trail = n), which needs a characterisation of where
-   tickit_utf8_countmore stops; (2) the simulation of flush_line against t_apply with the
-   invariant "phycol = the terminal's column, or -1"; (3) the three content invariants above
-   carried through the C03 operations. *)
+   What is proved of it above: WHERE everything is written (C04_flush_columns) and that the
+   flush is total (C04_flush_total_and_resets).  What is missing is WHAT is written there: the
+   simulation of the operations against the mock terminal's grapheme loop (t_print_loop), i.e.
+   that printing the slice of a string puts each character's text into the cell of its column
+   and that the pen in force is the span's. *)
 
 Example C04_nonvacuous :
   exists s v ops, run (rb_new 1 6) [OTextAt 0 0 [0xff21; 98; 99]; OCharAt 0 0 120; OHLine 0 4 5 2 3] = Ok (s, v) /\
@@ -59,3 +104,9 @@ Example C04_nonvacuous :
     ops = [TGoto 0 0; TSetPen pen_empty; TPrint [120]; TSetPen pen_empty; TPrint [32]; TPrint [98; 99];
            TSetPen pen_empty; TPrint [0x2550; 0x2550]].
 Proof. exact RBFlushProofs.nonvacuous. Qed.
+
+Example C04_columns_nonvacuous :
+  exists s v ops, run (rb_new 2 6) [OTextAt 0 0 [0xff21; 98; 99]; OCharAt 0 0 120; OEraseAt 1 1 2; OHLine 0 4 5 2 3] = Ok (s, v) /\
+    flush s = Ok (ops, reset s) /\
+    track None ops = Some ([(0, 0); (0, 1); (0, 2); (0, 3); (0, 4); (0, 5); (1, 1); (1, 2)], None).
+Proof. exact columns_nonvacuous. Qed.
